@@ -20,45 +20,74 @@ def _caller_is_queue_method(depth=2):
 
 
 class TracedDeque(deque):
-    """the queue's deque: every length test and mutation is logged (they happen inside the lock)"""
+    """the queue's deque: every length test and mutation is logged.  In the code as it stands they all happen inside the
+    queue's lock; the first access made WITHOUT the lock marks the deque as exposed, and from then on every access is a
+    pre-emption point (so a lock-free fast path racing with a locked copy-then-clear can be explored)."""
     sched = None
+    guard = None        # the SchedLock of the queue's Lock
+    exposed = False
 
     def _emit(self, *ev):
         s = ds.CUR
         if s is not None and s.me() is not None:
             s.emit("dq", *ev)
 
+    def _pre(self, op):
+        s = ds.CUR
+        if s is None or s.me() is None or self.guard is None:
+            return
+        if not self.exposed and self.guard.owner is not s.me() and _caller_is_queue_method(3):
+            self.exposed = True
+        if self.exposed:
+            s.yield_point(("dq", op))
+
     def __len__(self):
+        q = _caller_is_queue_method()
+        if q:
+            self._pre("len")
         n = deque.__len__(self)
-        if _caller_is_queue_method():
+        if q:
             self._emit("len", n)
         return n
 
     def __bool__(self):
+        q = _caller_is_queue_method()
+        if q:
+            self._pre("len")
         n = deque.__len__(self)
-        if _caller_is_queue_method():
+        if q:
             self._emit("len", n)
         return n > 0
 
+    def __iter__(self):
+        if _caller_is_queue_method():
+            self._pre("iter")
+        return deque.__iter__(self)
+
     def append(self, v):
+        self._pre("append")
         self._emit("append", v)
         deque.append(self, v)
 
     def appendleft(self, v):
+        self._pre("appendleft")
         self._emit("appendleft", v)
         deque.appendleft(self, v)
 
     def extendleft(self, vs):
         vs = list(vs)
+        self._pre("extendleft")
         self._emit("extendleft", vs)
         deque.extendleft(self, vs)
 
     def popleft(self):
+        self._pre("popleft")
         v = deque.popleft(self)
         self._emit("popleft", v)
         return v
 
     def clear(self):
+        self._pre("clear")
         self._emit("clear", list(deque.__iter__(self)))
         deque.clear(self)
 
@@ -147,6 +176,7 @@ def run_scenario(sc, chooser=None, seed=0, max_steps=6000):
     q.closed.lock = ds.SchedLock()
     q.queue = TracedDeque(sc["prefill"])
     q.lock.lock = ds.SchedLock()
+    q.queue.guard = q.lock.lock
     sched.tag(q.lock.lock, "M")
     sched.trace(q.closed, "closed")
     tills = []
@@ -173,6 +203,8 @@ def run_scenario(sc, chooser=None, seed=0, max_steps=6000):
             res = st["results"].setdefault(ti, [])
             for op in ops:
                 kind = op[0]
+                h = {"t": ti, "op": op, "call": len(sched.events), "ret": None, "r": None}
+                st["hist"].append(h)
                 try:
                     if kind == "add":
                         sched.note("call", ti, "add", op[1], 999, 0)
@@ -231,6 +263,8 @@ def run_scenario(sc, chooser=None, seed=0, max_steps=6000):
                     return
                 rs = fmt_result(r)
                 sched.note("ret", ti, kind_name(kind), rs)
+                h["ret"] = len(sched.events)
+                h["r"] = r
                 res.append((op, r))
         return run
 
@@ -365,6 +399,67 @@ def to_lines(events):
     return out
 
 
+def linearizable(hist, prefill, final):
+    """Wing & Gong search over the call/return history (every call completed): is there a total order that respects real time
+    (a call that returned before another was issued comes first) and is a legal history of a sequential FIFO?
+    Capacity and blocking are not part of the sequential specification (a blocked call simply linearises later).
+    Returns None if linearizable, else a description."""
+    ops = [h for h in hist if h["ret"] is not None]
+    if len(ops) != len(hist) or len(ops) > 16:
+        return None
+    n = len(ops)
+    before = [[ops[a]["ret"] <= ops[b]["call"] for b in range(n)] for a in range(n)]
+    seen = set()
+
+    def apply(state, h):
+        k, r = h["op"][0], h["r"]
+        if isinstance(r, str) and r in ("timeout", "closederr") or (isinstance(r, str) and r.startswith("error:")):
+            return state
+        if k in ("add", "add_till", "add_force"):
+            return state + (h["op"][1],)
+        if k == "extend":
+            return state + tuple(h["op"][1])
+        if k == "push":
+            return (h["op"][1],) + state
+        if k in ("pop", "pop_till"):
+            if r is None:
+                return state
+            if r == STOP:
+                return state if not state else None
+            return state[1:] if state and state[0] == r else None
+        if k == "pop_one":
+            if r is None or r == STOP:
+                return state if not state else None
+            return state[1:] if state and state[0] == r else None
+        if k == "pop_all":
+            got = tuple(v for v in r if v != STOP)
+            return () if got == state else None
+        if k == "len":
+            return state if r == len(state) else None
+        return state      # close / add_stop: no value moves
+
+    def search(done, state):
+        if len(done) == n:
+            return tuple(final) == state
+        key = (done, state)
+        if key in seen:
+            return False
+        seen.add(key)
+        for i in range(n):
+            if i in done:
+                continue
+            if any(before[j][i] for j in range(n) if j not in done and j != i):
+                continue
+            s2 = apply(state, ops[i])
+            if s2 is not None and search(done | frozenset([i]), s2):
+                return True
+        return False
+
+    if search(frozenset(), tuple(prefill)):
+        return None
+    return "; ".join("t%d %s->%s" % (h["t"], h["op"], fmt_result(h["r"]) if not isinstance(h["r"], str) else h["r"]) for h in ops)[:300]
+
+
 def monitors(sc, lines, st, outcome, stuck, final, closed):
     """independent of Lean: FIFO/loss/duplication/order, capacity, close semantics — from the recorded history"""
     viol = []
@@ -390,6 +485,11 @@ def monitors(sc, lines, st, outcome, stuck, final, closed):
             spec = []
     if spec != final:
         viol.append("C07: final contents %s differ from the sequential replay %s" % (final, spec))
+    closing = sc["close_at_end"] or any(op[0] in ("close", "add_stop") for t in sc["threads"] for op in t)
+    if outcome == "done" and not closing:      # what a closed queue returns is C09's subject, not part of the FIFO specification
+        why = linearizable(st["hist"], list(sc["prefill"]), final)
+        if why:
+            viol.append("C07: the calls and their results have no FIFO linearisation consistent with real time: " + why)
     # results returned to callers
     returned = []
     for ti, res in st["results"].items():
@@ -397,12 +497,20 @@ def monitors(sc, lines, st, outcome, stuck, final, closed):
             k = op[0]
             if k in ("pop", "pop_till", "pop_one") and r is not None and r != STOP:
                 returned.append(r)
-            if k == "pop_all":
+            if k == "pop_all" and isinstance(r, list):
                 returned.extend(r)
+            if isinstance(r, str) and r.startswith("error:"):
+                viol.append("C07: %s raised %s" % (k, r))
             if k == "pop_till" and r is None and op[1] not in sc["fire"]:
                 viol.append("C07: pop(till) returned None although its till never fired")
+                if closed:
+                    viol.append("C09: a pop() pending at close() returned None instead of the stop marker (its till never fired)")
+            if k == "pop" and r is None:
+                viol.append("C07: pop() without a till returned None")
+                if closed:
+                    viol.append("C09: a pop() pending at close() returned None instead of the stop marker")
     if len(set(returned)) != len(returned):
-        viol.append("C07: a value was delivered twice: %s" % sorted(returned))
+        viol.append("C07: a value was delivered twice: %s" % sorted(returned, key=str))
     all_added = set(sc["prefill"])
     for ti, res in st["results"].items():
         for op, r in res:
@@ -412,7 +520,7 @@ def monitors(sc, lines, st, outcome, stuck, final, closed):
                 all_added.update(op[1])
     lost = all_added - set(returned) - set(final)
     if outcome in ("done", "stuck") and lost:
-        viol.append("C07: values %s were added but neither delivered nor still queued" % sorted(lost))
+        viol.append("C07: values %s were added but neither delivered nor still queued" % sorted(lost, key=str))
     if st["maxlen_open"] > sc["max"] and not any(op[0] in ("add_force", "extend", "push") for t in sc["threads"] for op in t) and len(sc["prefill"]) <= sc["max"]:
         viol.append("C08: open queue held %d values, max is %d" % (st["maxlen_open"], sc["max"]))
     for ti, res in st["results"].items():
